@@ -264,7 +264,7 @@ fn models(s: &Shape, limit: usize) -> Option<Vec<Vec<bool>>> {
         steps: &mut u64,
     ) -> bool {
         *steps += 1;
-        if *steps > 50_000_000 || out.len() > limit {
+        if *steps > 20_000_000 || out.len() > limit {
             return false;
         }
         let mut d = depth;
@@ -326,6 +326,25 @@ pub fn check_case(c: &Case) -> Result<Report, Violation> {
     let text2 = run_generator(c, true).map_err(|e| v(e))?;
     if text != text2 {
         return Err(v("the output differs between file input and stdin".into()));
+    }
+    {
+        // INPUT OUTPUT form, onto a path where a longer file already exists
+        let scratch = cli::Scratch::new();
+        let inp = scratch.file("puzzle.txt", c.puzzle.as_bytes());
+        let outp = scratch.stale("formula.txt");
+        let out = cli::run(
+            &cli::bin("sudoku_gen"),
+            &[inp.to_string_lossy().into_owned(), outp.to_string_lossy().into_owned(), "--root".into(), c.root.to_string()],
+            None,
+            Duration::from_secs(60),
+        );
+        if !out.ok() {
+            return Err(v(format!("sudoku_gen INPUT OUTPUT failed: {}", out.describe())));
+        }
+        let text3 = std::fs::read_to_string(&outp).map_err(|e| v(format!("output file: {}", e)))?;
+        if text3 != text {
+            return Err(v("the output FILE differs from what is written to stdout".into()));
+        }
     }
     let sig = if c.puzzle.contains('"') { "quote-in-puzzle" } else { "" };
     let parsed = rparse::parse_text(text.as_bytes())
@@ -415,11 +434,13 @@ pub fn check_case(c: &Case) -> Result<Report, Violation> {
             }
         }
     }
-    // exactness for r <= 2: enumerate ALL models of the emitted constraints
+    // exactness: enumerate ALL models of the emitted constraints (always for r <= 2; for r = 3 when
+    // the puzzle has few enough solutions for both enumerations to finish within their step bounds)
     let mut exact = false;
-    if c.root <= 2 {
+    let ref_complete = if c.root <= 2 { true } else { sols.len() < 40 };
+    if ref_complete {
         if let Some(sh) = shape(&parsed.ast, &index) {
-            if let Some(ms) = models(&sh, 200_000) {
+            if let Some(ms) = models(&sh, if c.root <= 2 { 200_000 } else { 2_000 }) {
                 exact = true;
                 let got: BTreeSet<Vec<(usize, usize)>> = ms
                     .iter()
@@ -605,7 +626,7 @@ fn record(c: &Case, rep: &Report, st: &mut Stats) {
 
 pub fn run(ctx: &mut Ctx) -> Result<(), Violation> {
     ctx.rule = "cases = (root r, puzzle text): hint patterns empty / full valid grid / partial valid / contradictory (equal givens in a row) / random givens, layouts with line breaks, spaces, tabs, CRLF, short and over-long inputs, blank symbols drawn from printable non-digit ASCII INCLUDING the double quote and a few non-ASCII characters; givens are digits 1..r^2. The sudoku_gen binary built from the working tree is run with file and stdin input (must agree). \
-                Oracle: independent back-tracking sudoku enumerator. r <= 2: ALL models of the emitted text (reduced by the reference parser to literals and cardinality constraints, enumerated by a cardinality back-tracker) must equal, one-to-one, the reference grids. Every r (incl. 3): every reference solution satisfies the formula (pointwise reference evaluation) and near-misses (swap two cells, change a cell, extra value, emptied cell, broken given) are classified exactly as the reference classifier 'completed grid keeping the givens' does. \
+                Oracle: independent back-tracking sudoku enumerator. r <= 2 (and r = 3 whenever the puzzle has fewer than 40 solutions and the enumeration finishes within its step bound): ALL models of the emitted text (reduced by the reference parser to literals and cardinality constraints, enumerated by a cardinality back-tracker) must equal, one-to-one, the reference grids. Every r (incl. 3): every reference solution satisfies the formula (pointwise reference evaluation) and near-misses (swap two cells, change a cell, extra value, emptied cell, broken given) are classified exactly as the reference classifier 'completed grid keeping the givens' does. \
                 Non-trivial = case with r >= 2; distinct by (root, puzzle text). evaluations counts assignments / models compared."
         .to_string();
     ctx.assume("givens are digits between 1 and r^2; `0` and digits above r^2 are not generated (outside the property's domain)");
